@@ -20,6 +20,7 @@ def scenarios(rng, tier):
         if wifi:
             kw.update(wifi=rng.choice([0, 1, 2, 3, 255]), bssid=bytes(rng.randrange(256) for _ in range(6)), ssid=bytes(rng.randrange(1, 256) for _ in range(k % 41)),
                       rate=rng.choice([0, 1, 0xFF, 0x100, 108, 0xFFFF, rng.randrange(65536)]), rssi=rng.choice([-128, -127, -70, -1, 0, 1, 127]))
+            if rng.random() < 0.5: kw['phy'] = rng.choice([1, 2, 7])
         fails = [f for f in ('iftypefail', 'ipv4fail', 'ipv6fail', 'speedfail', 'bssidfail', 'ratefail', 'rssifail', 'macfail') if rng.random() < (0.15 if k % 3 == 0 else 0.0)]
         for f in fails: kw[f] = 1
         cfg = Cfg(0, **kw)
